@@ -202,6 +202,12 @@ Theorem gen_graph_runner_sources_agree : G.tie_available = true ->
   G.runner_handler_sources = model_handler_sources /\ G.runner_node_edge_sources = model_node_edge_sources.
 Proof. intros TA; first [vacuous TA | clear TA; split; reflexivity]. Qed.
 
+(* the loop of compile that compiles the child graphs visits the nodes in the order of their keys — the order
+   Model/BuilderNested.v ([nstep]: [sorted_keys]) gives the children; in Go's map order, which child a failing
+   Compile has frozen differs from attempt to attempt (F-C20g, nested_compile_order_v0_refuted) *)
+Theorem gen_graph_node_loop_sorted : G.tie_available = true -> G.node_loop_sorted = true.
+Proof. intros TA; first [vacuous TA | clear TA; reflexivity]. Qed.
+
 (* what the agreement with [canon] is worth: once the build error is set, no graph-level step looks at anything
    else, so two states with the same build error are indistinguishable for every later call *)
 Lemma frozen_indistinguishable : forall v g g' e c,
@@ -229,3 +235,4 @@ Print Assumptions gen_graph_addBranch_agrees.
 Print Assumptions gen_graph_addBranch_agrees_reachable.
 Print Assumptions gen_graph_compile_agrees.
 Print Assumptions gen_graph_runner_sources_agree.
+Print Assumptions gen_graph_node_loop_sorted.
